@@ -77,6 +77,12 @@ impl Monitor for C14 {
         if post.reward_bank > pre.reward_bank {
             self.delivered += post.reward_bank - pre.reward_bank;
         }
+        // attempts are counted whatever the outcome (a contract may refuse an update while nobody holds bSei)
+        if let Op::Raw { contract, msg, .. } = c.op {
+            if contract == REWARD && msg.starts_with("{\"update_global_index\"") && pre.reward_total_balance == 0 && pre.reward_bank > pre.prev_reward_balance {
+                out.count("c14.index_update_attempts_without_holders_with_undistributed_delivery");
+            }
+        }
         if c.res.ok() {
             let n = reward_updates_in(c);
             if n > 0 && pre.reward_total_balance > 0 {
